@@ -180,17 +180,17 @@ theorem flt_roundtrip (x : Num) (is32 : Bool) (h : (if is32 then x.isF32 else x.
 theorem mapRes_ok_iff {α β} (f : α → β) (r : Res α) (b : β) : mapRes f r = .ok b ↔ ∃ a, r = .ok a ∧ b = f a := by
   cases r <;> simp [mapRes, eq_comm]
 
-theorem fromCtyP_ptr : ∀ (p : Payload) (ms : List String) (ty : Ty) (T : GoTy) (g : GoVal),
-    fromCtyP ms ty p T = .ok g → fromCtyP ms ty p (.ptr T) = .ok (.ptr g)
-  | .marked m r, ms, ty, T, g, h => by
+theorem fromCtyP_ptr : ∀ (p : Payload) (S : Sched) (ms : List String) (ty : Ty) (T : GoTy) (g : GoVal),
+    fromCtyP S ms ty p T = .ok g → fromCtyP S ms ty p (.ptr T) = .ok (.ptr g)
+  | .marked m r, S, ms, ty, T, g, h => by
     unfold fromCtyP at h ⊢
     simp only [GoTy.base, GoTy.depth]
     by_cases hc : T.base.isCval = true
     · simp only [hc, if_true] at h ⊢; cases h; rfl
     · simp only [Bool.not_eq_true] at hc
       simp only [hc, Bool.false_eq_true, if_false] at h ⊢
-      exact fromCtyP_ptr r _ ty T g h
-  | .null, ms, ty, T, g, h => by
+      exact fromCtyP_ptr r S _ ty T g h
+  | .null, S, ms, ty, T, g, h => by
     unfold fromCtyP at h ⊢
     simp only [GoTy.base, GoTy.depth]
     by_cases hc : T.base.isCval = true
@@ -206,9 +206,9 @@ theorem fromCtyP_ptr : ∀ (p : Payload) (ms : List String) (ty : Ty) (T : GoTy)
           cases h; simp [*, wrapPtr]
       · repeat' (split at h)
         all_goals first | (cases h; done) | (cases h; simp [*, wrapPtr]; done)
-  | .unk _, ms, ty, T, g, h | .b _, ms, ty, T, g, h | .n _, ms, ty, T, g, h | .s _, ms, ty, T, g, h
-  | .seq _, ms, ty, T, g, h | .smap _ _, ms, ty, T, g, h | .sset _ _, ms, ty, T, g, h
-  | .caps, ms, ty, T, g, h | .bad _, ms, ty, T, g, h => by
+  | .unk _, S, ms, ty, T, g, h | .b _, S, ms, ty, T, g, h | .n _, S, ms, ty, T, g, h | .s _, S, ms, ty, T, g, h
+  | .seq _, S, ms, ty, T, g, h | .smap _ _, S, ms, ty, T, g, h | .sset _ _, S, ms, ty, T, g, h
+  | .caps, S, ms, ty, T, g, h | .bad _, S, ms, ty, T, g, h => by
     unfold fromCtyP at h ⊢
     simp only [GoTy.base, GoTy.depth]
     by_cases hc : T.base.isCval = true
@@ -280,6 +280,49 @@ theorem strictAsc_sortNames : ∀ (ks : List String), strictAsc (sortNames ks) =
 
 /-! ### the bridge type is well formed -/
 
+/-- what a successful `impliedStructType` returned -/
+theorem impliedStruct_inv {norm : String → String} {etags : List String} {rs : List (Res Ty)} {ty : Ty}
+    (h : impliedStruct norm etags rs = .ok ty) :
+    ∃ ts, rs = ts.map Res.ok ∧ taggedNames etags ≠ [] ∧
+      ty = .object (sortNames ((taggedNames etags).map norm))
+        ((sortNames ((taggedNames etags).map norm)).map fun k =>
+          (lookupKey k ((taggedNames etags).map norm) ts).getD .dyn)
+        ((sortNames ((taggedNames etags).map norm)).map fun _ => false) := by
+  unfold impliedStruct at h
+  simp only [] at h
+  split at h; · cases h
+  rename_i hne
+  split at h; · cases h
+  split at h
+  · rename_i ts hts
+    cases h
+    refine ⟨ts, combAll_ok_inv _ _ hts, ?_, rfl⟩
+    intro e; rw [e] at hne; simp at hne
+  · cases h
+  · cases h
+  · cases h
+
+theorem effTags_of_distinct : ∀ (tags : List String), tagsDistinct tags = true → effTags tags = tags
+  | [], _ => rfl
+  | t :: ts, h => by
+    simp only [tagsDistinct, Bool.and_eq_true, Bool.or_eq_true, beq_iff_eq, Bool.not_eq_true',
+      List.contains_eq_mem, decide_eq_false_iff_not] at h
+    simp only [effTags, effTags_of_distinct ts h.2, List.cons.injEq, and_true]
+    rcases h.1 with h0 | h0
+    · simp [h0]
+    · simp [h0]
+
+theorem taggedNames_effTags_nil : ∀ (tags : List String), taggedNames tags = [] → taggedNames (effTags tags) = []
+  | [], _ => rfl
+  | t :: ts, h => by
+    simp only [taggedNames] at h
+    split at h
+    · rename_i ht
+      subst ht
+      simp only [effTags, bne_self_eq_false, Bool.false_and, Bool.false_eq_true, if_false, taggedNames, if_true]
+      exact taggedNames_effTags_nil ts h
+    · cases h
+
 theorem wf_lookup_getD (k : String) : ∀ (ks : List String) (ts : List Ty), wfL ts = true →
     wf ((lookupKey k ks ts).getD .dyn) = true
   | [], _, _ => by simp [lookupKey, wf]
@@ -322,17 +365,10 @@ theorem impliedG_wf (norm : String → String) (ext : Bool) : ∀ (T : GoTy) (ty
     · cases h
   | .struct tags tys, ty, h => by
     simp only [impliedG] at h
-    split at h; · cases h
-    split at h; · cases h
-    split at h
-    · rename_i ts hts
-      cases h
-      have hw := impliedFields_wf norm ext tags tys ts (combAll_ok_inv _ _ hts)
-      simp only [wf, List.length_map, beq_self_eq_true, Bool.true_and, strictAsc_sortNames, Bool.and_eq_true]
-      exact wfL_map _ (fun k => wf_lookup_getD k _ ts hw) _
-    · cases h
-    · cases h
-    · cases h
+    obtain ⟨ts, hts, _, rfl⟩ := impliedStruct_inv h
+    have hw := impliedFields_wf norm ext (effTags tags) tys ts hts
+    simp only [wf, List.length_map, beq_self_eq_true, Bool.true_and, strictAsc_sortNames]
+    exact wfL_map _ (fun k => wf_lookup_getD k _ ts hw) _
 theorem impliedFields_wf (norm : String → String) (ext : Bool) : ∀ (tags : List String) (tys : List GoTy)
     (ts : List Ty), impliedFields norm ext tags tys = ts.map Res.ok → wfL ts = true
   | [], _, ts, h => by
@@ -382,24 +418,24 @@ theorem impliedG_array_inv {norm : String → String} {ext : Bool} {n : Nat} {e 
     · rename_i r hr; rw [h] at hr; exact absurd rfl (hr ty)
   · cases h
 
+theorem impliedG_struct_obj {norm : String → String} {ext : Bool} {tags : List String} {tys : List GoTy} {ty : Ty}
+    (h : impliedG norm ext (.struct tags tys) = .ok ty) : ∃ n a o, ty = .object n a o := by
+  simp only [impliedG] at h
+  obtain ⟨ts, _, _, rfl⟩ := impliedStruct_inv h
+  exact ⟨_, _, _, rfl⟩
+
+/-- with distinct NFC tags (the well-tagged structs of the round trip) -/
 theorem impliedG_struct_inv {norm : String → String} {ext : Bool} {tags : List String} {tys : List GoTy} {ty : Ty}
+    (hd : tagsDistinct tags = true) (hn : (taggedNames tags).map norm = taggedNames tags)
     (h : impliedG norm ext (.struct tags tys) = .ok ty) :
     ∃ ts, impliedFields norm ext tags tys = ts.map Res.ok ∧ taggedNames tags ≠ [] ∧
       ty = .object (sortNames (taggedNames tags))
         ((sortNames (taggedNames tags)).map fun k => (lookupKey k (taggedNames tags) ts).getD .dyn)
         ((sortNames (taggedNames tags)).map fun _ => false) := by
-  simp only [impliedG] at h
-  split at h; · cases h
-  rename_i hne
-  split at h; · cases h
-  split at h
-  · rename_i ts hts
-    cases h
-    refine ⟨ts, combAll_ok_inv _ _ hts, ?_, rfl⟩
-    intro e; rw [e] at hne; simp at hne
-  · cases h
-  · cases h
-  · cases h
+  simp only [impliedG, effTags_of_distinct tags hd] at h
+  obtain ⟨ts, hts, hne, rfl⟩ := impliedStruct_inv h
+  rw [hn]
+  exact ⟨ts, hts, hne, rfl⟩
 
 theorem impliedG_notDyn (norm : String → String) (ext : Bool) : ∀ (T : GoTy) (ty : Ty),
     impliedG norm ext T = .ok ty → hasCval T = false → isDynTy ty = false
@@ -413,7 +449,7 @@ theorem impliedG_notDyn (norm : String → String) (ext : Bool) : ∀ (T : GoTy)
   | .slice e, ty, h, _ => by obtain ⟨t, _, rfl⟩ := impliedG_slice_inv h; rfl
   | .map e, ty, h, _ => by obtain ⟨t, _, rfl⟩ := impliedG_map_inv h; rfl
   | .array _ e, ty, h, _ => by obtain ⟨t, _, rfl⟩ := impliedG_array_inv h; rfl
-  | .struct tags tys, ty, h, _ => by obtain ⟨ts, _, _, rfl⟩ := impliedG_struct_inv h; rfl
+  | .struct tags tys, ty, h, _ => by obtain ⟨_, _, _, rfl⟩ := impliedG_struct_obj h; rfl
 
 /-! ### `cty.ListVal` / `cty.MapVal` on members of one type -/
 
@@ -462,18 +498,9 @@ theorem implied_bridge (norm : String → String) : ∀ (T : GoTy) (ty : Ty),
     simp only [impliedG, implied_bridge norm e t ht]
   | .struct tags tys, ty, h => by
     simp only [impliedG] at h ⊢
-    split at h; · cases h
-    rename_i h1
-    split at h; · cases h
-    rename_i h2
-    split at h
-    · rename_i ts hts
-      cases h
-      have := impliedFields_bridge norm tags tys ts (combAll_ok_inv _ _ hts)
-      simp only [h1, h2, Bool.false_eq_true, if_false, this, combAll_map_ok]
-    · cases h
-    · cases h
-    · cases h
+    obtain ⟨ts, hts, _, _⟩ := impliedStruct_inv h
+    rw [impliedFields_bridge norm (effTags tags) tys ts hts, ← hts]
+    exact h
 theorem impliedFields_bridge (norm : String → String) : ∀ (tags : List String) (tys : List GoTy) (ts : List Ty),
     impliedFields norm false tags tys = ts.map Res.ok → impliedFields norm true tags tys = ts.map Res.ok
   | [], _, ts, h => by simp only [impliedFields] at h ⊢; exact h
